@@ -60,6 +60,11 @@ type CatSpec struct {
 	RoundTrip   bool      `json:"round_trip"` // the sql side sees the catalogue after Marshal/Unmarshal (as ts-sql does)
 	Reshards    []Reshard `json:"reshards,omitempty"`
 	PreGroupsAt []I64     `json:"pre_groups_at,omitempty"` // shard groups created before any measurement has ShardIdexes
+	// ALTER RETENTION POLICY ... SHARD DURATION (GroupDurNs x DurFactor) applied after write
+	// batch DurChangeAfter (0 = never): later points outside the existing groups get LONGER groups
+	// that overlap and out-last the short ones, so the group list is no longer in start order
+	DurChangeAfter int `json:"shard_duration_change_after_batch,omitempty"`
+	DurFactor      int `json:"shard_duration_factor,omitempty"`
 }
 
 func (s *CatSpec) mst(name string) *MstSpec {
@@ -273,6 +278,14 @@ func (m *sqlMeta) afterBatch(s *CatSpec, n int) error {
 			m.applied["alter-shard-key"]++
 			changed = true
 		}
+	}
+	if s.DurChangeAfter == n && n > 0 && s.DurFactor > 1 {
+		d := time.Duration(s.GroupDurNs * int64(s.DurFactor))
+		if err := m.master.UpdateRetentionPolicy(dbName, rpName, &meta.RetentionPolicyUpdate{ShardGroupDuration: &d}, false); err != nil {
+			return fmt.Errorf("UpdateRetentionPolicy(shard duration): %w", err)
+		}
+		m.applied["alter-shard-duration"]++
+		changed = true
 	}
 	for _, r := range s.Reshards {
 		if r.AfterBatch != n {
